@@ -127,6 +127,11 @@ FUNCS = {
                          direct=lambda a: expect(AptosAddrDecoder.DecodeAddr(AptosAddrEncoder.EncodeKey(a[1], trim_zeroes=bool(a[0]))),
                                                  hashlib.sha3_256(a[1] + b"\x00").digest(), "APTOS")),
     "aptos_decode": Func(model=lambda m, a: m.call("aptos_decode", a[0]), impl=lambda a: AptosAddrDecoder.DecodeAddr(a[0])),
+    # Taproot output key: [pub_c]
+    "taproot_tweak": Func(model=lambda m, a: m.call("taproot_tweak", a[0]),
+                          impl=lambda a: __import__("bip_utils.addr.P2TR_addr", fromlist=["_P2TRUtils"])._P2TRUtils.TweakPublicKey(
+                              Secp256k1PublicKey.FromBytes(a[0])),
+                          direct=lambda a: _taproot_direct(a)),
     # refusal clauses: [encoder index, key bytes]  (direct only)
     "wrong_curve": Func(direct=lambda a: _wrong_curve(a)),
     "bad_key_bytes": Func(direct=lambda a: _bad_key(a)),
@@ -145,6 +150,28 @@ KEYOBJ = {
     "edb": lambda: Ed25519Blake2bPrivateKey.FromBytes(bytes(range(1, 33))).PublicKey(),
     "sr": lambda: Substrate.FromSeed(bytes(range(32)), SubstrateCoins.POLKADOT).PublicKey().KeyObject(),
 }
+
+
+def taproot_ref(pub_c):
+    """BIP-341 output key from the spec, own arithmetic."""
+    x = int.from_bytes(pub_c[1:], "big")
+    P_ = S.lift_x(x, False)
+    tag = hashlib.sha256(b"TapTweak").digest()
+    t = int.from_bytes(hashlib.sha256(tag + tag + pub_c[1:]).digest(), "big")
+    Q = S.add(P_, S.mul(t, S.G))
+    return Q[0].to_bytes(32, "big")
+
+
+def _taproot_direct(a):
+    from bip_utils.bech32 import SegwitBech32Decoder
+    want = taproot_ref(a[0])
+    addr = P2TRAddrEncoder.EncodeKey(a[0], hrp="bc")
+    v, prog = SegwitBech32Decoder.Decode("bc", addr)
+    if v != 1 or prog != want:
+        return "P2TR program %s (v%d), BIP-341 defines %s" % (prog.hex(), v, want.hex())
+    if P2TRAddrDecoder.DecodeAddr(addr, hrp="bc") != want:
+        return "P2TR decoder does not return the output key"
+    return None
 
 
 def _wrong_curve(a):
@@ -237,6 +264,7 @@ def generate(ctx):
         if r and r[0] == "ok":
             for t in [r[1]] + mutate(r[1], rng)[:1]:
                 ctx.run("p2sh_decode", [nv, t], "dec")
+        ctx.run("taproot_tweak", [c], "rand")
         for fn, arg in (("xrp", [c]), ("eos", [c]), ("trx", [c, u]), ("icx", [c, u])):
             _, r = ctx.run(fn + "_encode", arg, "lead0" if k in lead else "rand")
             if r and r[0] == "ok":
@@ -274,6 +302,14 @@ def generate(ctx):
             if r and r[0] == "ok":
                 for t in [r[1], "0x" + r[1][2:].lstrip("0"), "0x"] + mutate(r[1], rng)[:2]:
                     ctx.run("aptos_decode", [t], "dec")
+    # taproot: keys whose OUTPUT key x has a leading zero byte (the fixed-width bug class), by search
+    found, k = 0, 1
+    while found < ctx.n(2, 8) and k < 4000:
+        c, _u = secp(k)
+        if taproot_ref(c)[0] == 0:
+            ctx.run("taproot_tweak", [c], "lead0-out")
+            found += 1
+        k += 1
     # aptos: a key whose hash has leading zero nibbles (searched)
     cnt = 0
     for i in range(20000):
